@@ -29,7 +29,7 @@ func (s *snapper) obj(t *types.Type) *common.UObj {
 	s.objs[t] = o
 	o.Elem, o.Key, o.Under = s.obj(t.Elem), s.obj(t.Key), s.obj(t.Underlying)
 	for _, m := range t.Members {
-		o.Members = append(o.Members, common.UMember{Name: m.Name, Embedded: m.Embedded, Tags: m.Tags, Type: s.obj(m.Type)})
+		o.Members = append(o.Members, common.UMember{Name: m.Name, Embedded: m.Embedded, Tags: m.Tags, Type: s.obj(m.Type), CommentLines: m.CommentLines})
 	}
 	if t.Methods != nil {
 		o.Methods = map[string]*common.UObj{}
@@ -95,6 +95,12 @@ func loadV1(prog *common.Program, requested []string) (*common.USnap, error) {
 	if err != nil {
 		return nil, err
 	}
+	if len(prog.Pkgs[0].Source)%2 == 0 {
+		// the same Builder fills a second, fresh universe: it must be as good as the first
+		if u, err = b.FindTypes(); err != nil {
+			return nil, err
+		}
+	}
 	return snapshotUniverse(u), nil
 }
 
@@ -123,7 +129,7 @@ func lookupChecksV1() []common.Failure {
 
 func init() {
 	for _, p := range []string{"C01", "C06", "C20"} {
-		props[p] = common.UniverseProperty(p, common.UniImpl{Load: loadV1, LookupChecks: lookupChecksV1})
+		props[p] = common.UniverseProperty(p, common.UniImpl{Load: loadV1, LookupChecks: lookupChecksV1, LoadHistory: loadHistoryV1})
 	}
 	props["C11"] = common.LoadingProperty(common.UniImpl{Load: loadV1, LoadHistory: loadHistoryV1})
 }
@@ -142,6 +148,11 @@ func writeGopath(prog *common.Program) (string, error) {
 		}
 		if err := os.WriteFile(filepath.Join(dir, p.File), []byte(p.Source), 0o644); err != nil {
 			return root, err
+		}
+		for fn, src := range p.Extra {
+			if err := os.WriteFile(filepath.Join(dir, fn), []byte(src), 0o644); err != nil {
+				return root, err
+			}
 		}
 	}
 	return root, nil
